@@ -98,6 +98,7 @@ contract(
     ensures_names=['accepted-lengths', 'to_bytes-roundtrip', 'bytes-roundtrip', 'registered', 'world-invariant'],
     raises={core.InvalidArgumentError: lambda uuid_bytes: not (len(uuid_bytes) == 2 or len(uuid_bytes) == 4 or len(uuid_bytes) == 16)},
     modifies=['ghost.uuids', 'ghost.uuid_heap.*'],
+    returns=Rec(UUID_M),
     uses=UUID_USES,
     inline=['UUID.to_bytes', 'UUID.__bytes__', 'UUID.__eq__', 'UUID.uuid_128_bytes'],
     native_setup=uuid_native_setup,
@@ -181,5 +182,134 @@ lemma(
     requires=lambda b1, b2, ghost: [len(b1) == 2 or len(b1) == 4 or len(b1) == 16, len(b2) == 2 or len(b2) == 4 or len(b2) == 16, uuid_world_ok(ghost)],
     uses=UUID_USES,
     inline=UUID_INLINE,
+    native_setup=uuid_native_setup,
+)
+
+
+# ---------------------------------------------------------------------------
+# sdp.DataElement / DataElementParser (Core Vol 3 Part B 3.1-3.3; oracle in spec/sdp.py)
+# ---------------------------------------------------------------------------
+import struct  # noqa: E402
+
+from bumble import sdp  # noqa: E402
+from spec import sdp as S  # noqa: E402
+
+DE = sdp.DataElement
+PARSER_M = 'bumble.sdp:DataElementParser'
+model(PARSER_M, fields={'data': Bytes, 'offset': Int, 'depth': Int, 'max_depth': Int})
+
+# what may escape from the parser on malformed input (truncated header / value, bad integer width, bad UUID width,
+# nesting too deep, undecodable URL): the parser object is then abandoned (it is local to DataElement.from_bytes /
+# parse_from_bytes), so nothing is promised about its state
+PARSE_RAISES = {
+    core.InvalidStateError: None,
+    core.InvalidPacketError: None,
+    core.InvalidArgumentError: None,
+    IndexError: None,
+    struct.error: None,
+    UnicodeDecodeError: None,
+}
+SDP_INLINE = ['DataElement.*', 'UUID.to_bytes', 'UUID.__bytes__', 'UUID.__eq__', 'UUID.uuid_128_bytes']
+SDP_MODIFIES = ['self.offset', 'self.depth', 'ghost.uuids', 'ghost.uuid_heap.*']
+
+contract(
+    'bumble.sdp:DataElementParser.parse_next',
+    key='bumble.sdp:DataElementParser.parse_next@callee',
+    prop='C18',
+    params=dict(self=Inst(PARSER_M)),
+    ghost=UUID_WORLD,
+    requires=lambda self, ghost: [0 <= self.offset, 0 <= self.depth, uuid_world_ok(ghost)],
+    ensures=lambda self, old, ghost: [
+        self.offset > old.self.offset,  # progress: what makes the list loop terminate
+        self.depth == old.self.depth,  # nesting counter restored
+        uuid_world_ok(ghost),
+    ],
+    ensures_names=['offset-advances', 'depth-restored', 'world-invariant'],
+    raises=PARSE_RAISES,
+    modifies=SDP_MODIFIES,
+    returns=Opaque('DataElement'),
+    uses=['bumble.sdp:DataElementParser._list_from_bytes', 'bumble.core:UUID.from_bytes'],
+    inline=SDP_INLINE,
+    note='callee view of parse_next (the result is an opaque element): progress and depth restoration, used by the list loop',
+)
+
+contract(
+    'bumble.sdp:DataElementParser._list_from_bytes',
+    prop='C18',
+    params=dict(self=Inst(PARSER_M), end_offset=Int),
+    ghost=UUID_WORLD,
+    requires=lambda self, ghost: [0 <= self.offset, 0 <= self.depth, uuid_world_ok(ghost)],
+    ensures=lambda self, old, end_offset, ghost: [
+        self.depth == old.self.depth,  # every normal exit undoes its own increment
+        old.self.depth < self.max_depth,
+        self.offset >= old.self.offset,
+        self.offset >= end_offset,
+        implies(old.self.offset >= end_offset, self.offset == old.self.offset),
+        uuid_world_ok(ghost),
+    ],
+    ensures_names=['depth-restored', 'depth-was-below-max', 'offset-monotone', 'list-consumed', 'empty-list-consumes-nothing', 'world-invariant'],
+    raises=PARSE_RAISES,
+    modifies=SDP_MODIFIES,
+    returns=ListOf(Opaque('DataElement')),
+    invariants={0: lambda self, old, end_offset, ghost: [self.depth == old.self.depth + 1, self.depth <= self.max_depth, self.offset >= old.self.offset,
+                                                         implies(old.self.offset >= end_offset, self.offset == old.self.offset), uuid_world_ok(ghost)]},
+    # termination: inside one list the remaining bytes decrease (parse_next advances); across nesting levels
+    # max_depth - depth decreases (callee precondition of the recursive parse_next is reached only with depth <= max_depth)
+    decreases={0: lambda self, end_offset: end_offset - self.offset},
+    loop_locals={0: {'elements': ListOf(Opaque('DataElement'))}},
+    uses=['bumble.sdp:DataElementParser.parse_next@callee'],
+)
+
+
+def is_reversed(w, data, end, n):
+    """w is the n bytes of data that end at `end`, in reverse order (n concrete)"""
+    ok = len(w) == n
+    for i in range(n):
+        ok = ok and w[i] == at(data, end - 1 - i)
+    return ok
+
+
+def de_value_ok(res, data, start):
+    """the parsed value of a scalar element is what the specification says the data bytes mean"""
+    vs = start + S.de_header_len(data, start)
+    ve = S.de_end(data, start)
+    t = res.type
+    if t == DE.NIL:
+        return res.value is None
+    if t == DE.UNSIGNED_INTEGER:
+        return res.value_size == ve - vs and res.value == S.be_uint(data, vs, ve - vs)
+    if t == DE.SIGNED_INTEGER:
+        return res.value_size == ve - vs and res.value == S.be_sint(data, vs, ve - vs)
+    if t == DE.TEXT_STRING:
+        return res.value == data[vs:ve]
+    if t == DE.BOOLEAN:
+        return res.value == (data[vs] == 1)
+    # UUIDs (byte-reversed on the wire: value checked per width in lemma sdp_uuid_roundtrip_*), sequences / alternatives
+    # (element lists), URLs (str) and unknown types: only header, slice and type here
+    return True
+
+
+contract(
+    'bumble.sdp:DataElementParser.parse_next',
+    prop='C18',
+    params=dict(self=Inst(PARSER_M)),
+    ghost=UUID_WORLD,
+    requires=lambda self, ghost: [0 <= self.offset, 0 <= self.depth, uuid_world_ok(ghost)],
+    ensures=lambda self, old, res, ghost: [
+        # header codec (size index / size bytes -> value size) for every size, against the oracle of spec/sdp.py
+        self.offset == S.de_end(self.data, old.self.offset),
+        res.type == S.de_type(self.data, old.self.offset),
+        # the cache is the consumed slice, and serialising the parsed element gives exactly those bytes back
+        res._bytes == self.data[old.self.offset : self.offset],
+        len(res._bytes) >= 1,
+        bytes(res) == self.data[old.self.offset : self.offset],
+        de_value_ok(res, self.data, old.self.offset),
+        self.depth == old.self.depth,
+    ],
+    ensures_names=['end-offset-per-spec', 'type-per-spec', 'cache-is-consumed-slice', 'cache-not-empty', 'bytes-roundtrip', 'scalar-value-per-spec', 'depth-restored'],
+    raises=PARSE_RAISES,
+    modifies=SDP_MODIFIES,
+    uses=['bumble.sdp:DataElementParser._list_from_bytes', 'bumble.core:UUID.from_bytes'],
+    inline=SDP_INLINE,
     native_setup=uuid_native_setup,
 )
